@@ -13,6 +13,7 @@ from harness.common import _cp
 PROPERTY = "C14"
 CFG = dict(round="uf", nl_uf=True, div="assume", sqrt="assume")
 HEAVY = {"aroon", "ADX", "RSI", "Supertrend", "OBV", "KC", "STOCH", "TSI", "MACD", "HMA", "Counter"}
+COMPOSITE = {"HMA", "ATR", "STDEV", "BBANDS", "KC", "Supertrend", "STDEVTHRES", "RSI", "MACD", "STOCH", "TSI", "ADX", "VWAP"}
 OPS = ["append", "calc", "calcX", "purge", "purgeX", "recalc", "recalcX", "cidx+", "cidx-1", "cidx-2", "remove", "add"]
 
 
@@ -31,6 +32,11 @@ def obligations(tier):
                 continue
             obs.append(Ob(f"{spec_name((kind, name, kw))}/first={first}/len<={L}/n={n}", dict(spec=[kind, name, kw], n=n, first=first, L=(L if not (heavy and tier == "quick") else 2), heavy=heavy), CFG,
                           weight=n * (10 if heavy else 1), budget_s=900 if tier == "quick" else 7200, max_paths=50000))
+        # same programs from the other initial state: X registered but never calculated yet (helpers not yet created)
+        if name in COMPOSITE and name != "ADX":
+            for first in ("purgeX", "recalcX", "purge", "recalc", "calcX", "append"):
+                obs.append(Ob(f"{spec_name((kind, name, kw))}/fresh/first={first}/len<=3/n={n}", dict(spec=[kind, name, kw], n=n, first=first, L=3, heavy=True, fresh=True), CFG,
+                              weight=n * 10, budget_s=900 if tier == "quick" else 7200, max_paths=50000))
     return obs
 
 
@@ -43,8 +49,10 @@ def programs(first, L, heavy):
     progs = [(first,)]
     if L >= 2:
         progs += [(first, b) for b in second]
-    if L >= 3:
+    if L >= 3 and not heavy:
         progs += [(first, b, c) for b in OPS for c in ("append", "calc", "purgeX", "recalcX", "cidx-1", "cidx+", "remove", "add")]
+    if L >= 3 and heavy:
+        progs += [(first, b, c) for b in ("calc", "append", "recalcX") for c in ("purgeX", "recalcX", "remove")]
     return progs
 
 
@@ -66,22 +74,29 @@ def run(ctx, P):
         lab = "[" + ",".join(prog) + "]"
         src = clone(cs)
         hx = Hexital("hx", src[: n - pending0], [build_any(spec), build("WMA", dict(period=2, name_suffix="by"))])
-        hx.calculate()
+        registered = True
+        clean_x = clean_all = True          # X's readings complete / every registered indicator's readings complete
+        if P.get("fresh"):
+            clean_x = clean_all = False
+        else:
+            hx.calculate()
         pos = n - pending0
-        registered, clean = True, True
         for op in prog:
             before = state(hx)
             if op == "append":
                 if pos < n:
-                    hx.append(src[pos])
+                    hx.append(src[pos])      # append = candle-manager append + calculate() of everything registered
                     pos += 1
-                clean = clean and registered
+                    clean_all, clean_x = True, registered
                 continue
             if op in ("calc", "calcX"):
                 hx.calculate(None if op == "calc" else xname)
-                if clean:
+                if clean_all or (op == "calcX" and clean_x):
                     ctx.equal("calculate-again-changes-nothing" + lab, state(hx), before)
-                clean = True if registered else clean
+                if op == "calc":
+                    clean_all, clean_x = True, registered
+                elif registered:
+                    clean_x = True
                 continue
             if op in ("purge", "purgeX"):
                 hx.purge(None if op == "purge" else xname)
@@ -97,16 +112,21 @@ def run(ctx, P):
                                 ctx.require("purge-removes-every-own-entry" + lab, not (left & gone), f"candle {i} {store} keeps {sorted(left & gone)}")
                                 keep = {k: v for k, v in b[store].items() if k not in gone}
                                 ctx.equal("purge-touches-nothing-else" + lab, a[store], keep)
-                clean = False
+                if op == "purge" or registered:
+                    clean_all = False
+                    clean_x = False
                 continue
             if op in ("recalc", "recalcX"):
                 hx.recalculate(None if op == "recalc" else xname)
-                if clean:
+                if clean_all or (op == "recalcX" and clean_x):
                     ctx.equal("recalculate-reproduces" + lab, state(hx), before)
-                clean = True if (op == "recalc" or registered) else clean
+                if op == "recalc":
+                    clean_all, clean_x = True, registered
+                elif registered:
+                    clean_x = True
                 continue
             if op.startswith("cidx"):
-                if not (clean and registered):
+                if not (clean_x and registered):
                     continue   # precondition of the property: the reading and its predecessors are computed
                 m = len(hx.candles())
                 idx = {"cidx+": m - 1, "cidx-1": -1, "cidx-2": -2}[op]
@@ -118,12 +138,13 @@ def run(ctx, P):
             if op == "remove":
                 hx.remove_indicator(xname)
                 registered = False
+                clean_x = False
                 continue
             if op == "add":
                 if not registered:
                     hx.add_indicator(build_any(spec))
                     registered = True
-                    clean = False
+                    clean_x = clean_all = False
                 continue
         # convergence: a final calculate() never raises and leaves the batch state for the current candles
         hx.calculate()
@@ -145,7 +166,7 @@ def run(ctx, P):
 
 
 META = dict(
-    bounds=dict(quick="all operation sequences of length <= 2 over {append, calculate, calculate(X), purge, purge(X), recalculate, recalculate(X), calculate_index(X, last / -1 / -2), remove_indicator(X), add_indicator(X)} for the non-branching indicators (value-branching ones: 5 first ops x 5 second ops), on a Hexital with X and a bystander WMA(2) named WMA_2_by; n = warm-up+3..4 candles, 2 of them pending for append",
+    bounds=dict(quick="all operation sequences of length <= 2 over {append, calculate, calculate(X), purge, purge(X), recalculate, recalculate(X), calculate_index(X, last / -1 / -2), remove_indicator(X), add_indicator(X)} for the non-branching indicators (value-branching ones: 5 first ops x 5 second ops), on a Hexital with X and a bystander WMA(2) named WMA_2_by; n = warm-up+3..4 candles, 2 of them pending for append; the composite indicators additionally from the initial state 'registered, never calculated' with programs of length <= 3",
                 thorough="length <= 3 (third op from 8), n+1, periods 2 and 3"),
     stubs=["exact real arithmetic, uninterpreted rounding and products"],
     assumptions=["calculate_index is only issued when X's readings are complete (the property's precondition)"],
